@@ -559,8 +559,85 @@ fn gen_demux(rng: &mut Rng) -> Value {
             gen_reg(rng, &mut ctx, l, &mut ops);
         }
     }
-    let total = rng.range(20, 90);
     let mut idx: u32 = 1;
+    // directed history (1 in 5 scenarios): a listener key (MID or RID) registered by one listener
+    // and then again by a second one, the first listener goes away and a packet still reaches it
+    // through a stale SSRC binding (closed-listener removal runs), then the key is used on a new
+    // SSRC: the packet belongs to the listener that is still registered for the key
+    if n >= 3 && rng.chance(1, 5) {
+        let use_mid = rng.chance(3, 4);
+        if use_mid && ctx.mid_ext.map_or(true, |i| i > 14) {
+            ctx.mid_ext = Some(rng.range(1, 14) as u8);
+        }
+        if !use_mid && ctx.rid_ext.map_or(true, |i| i > 14) {
+            ctx.rid_ext = Some(rng.range(1, 14) as u8);
+        }
+        if ctx.mid_ext == ctx.rid_ext {
+            if use_mid { ctx.rid_ext = None } else { ctx.mid_ext = None }
+        }
+        ops.push(json!({"op": "ext_ids", "rid": ctx.rid_ext, "mid": ctx.mid_ext}));
+        let key = if use_mid { rng.pick(&MID_POOL[..6]).to_string() } else { rng.pick(&RID_POOL).to_string() };
+        let ext_id = if use_mid { ctx.mid_ext.unwrap() } else { ctx.rid_ext.unwrap() };
+        let mut order: Vec<usize> = (0..n).collect();
+        rng.shuffle(&mut order);
+        let (first, second, other) = (order[0], order[1], order[2]);
+        let reg_op = if use_mid { "reg_mid" } else { "reg_rid" };
+        let field = if use_mid { "mid" } else { "rid" };
+        let pt = *rng.pick(&universe);
+        let s_old = 0x5000_0000 | rng.below(0x1000) as u32;
+        let keyed = |ssrc: u32, idx: u32, with_key: bool| -> Value {
+            let p = PktSpec {
+                pt,
+                seq: idx as u16,
+                ts: idx,
+                ssrc,
+                ext: if with_key {
+                    let mut d = vec![(ext_id << 4) | ((key.len() as u8 - 1) & 0x0F)];
+                    d.extend_from_slice(key.as_bytes());
+                    Some((0xBEDE, d))
+                } else {
+                    None
+                },
+                payload: vec![idx as u8; 4],
+                ..Default::default()
+            };
+            json!({"op": "pkt", "hex": hex(&build_rtp(&p))})
+        };
+        ops.push(json!({"op": reg_op, "l": first, field: key.clone()}));
+        if use_mid { ctx.mids.push(key.clone()) } else { ctx.rids.push(key.clone()) }
+        // bind an SSRC to the first listener: explicitly or by a packet carrying the key
+        if rng.bool() {
+            ops.push(json!({"op": "reg_ssrc", "l": first, "ssrc": s_old}));
+        } else {
+            ops.push(keyed(s_old, idx, true));
+            idx += 1;
+        }
+        ops.push(json!({"op": reg_op, "l": second, field: key.clone()}));
+        // another media section that could wrongly take the traffic
+        match rng.below(3) {
+            0 => ops.push(json!({"op": "reg_prov", "l": other})),
+            1 => ops.push(json!({"op": "reg_pts", "l": other, "pts": [pt]})),
+            _ => {
+                ops.push(json!({"op": "reg_prov", "l": other}));
+                ops.push(json!({"op": "reg_pts", "l": other, "pts": [pt]}));
+                ops.push(json!({"op": "reg_pts", "l": second, "pts": [pt]}));
+            }
+        }
+        ops.push(json!({"op": "close", "l": first}));
+        for _ in 0..rng.range(1, 2) {
+            ops.push(keyed(s_old, idx, false));
+            idx += 1;
+        }
+        for k in 0..rng.range(1, 3) {
+            ops.push(keyed(0x6000_0000 | (k as u32) << 8 | rng.below(0x100) as u32, idx, true));
+            idx += 1;
+            if rng.bool() {
+                ops.push(keyed(0x6000_0000 | (k as u32) << 8, idx, false));
+                idx += 1;
+            }
+        }
+    }
+    let total = rng.range(20, 90);
     for _ in 0..total {
         match rng.below(100) {
             0..=71 => {
@@ -2003,6 +2080,9 @@ pub fn run(args: &Args) -> i32 {
     for h in handles {
         if h.join().is_err() {
             report.note("a worker thread of the harness panicked (harness bug)");
+            for p in take_panics().iter().filter(|p| !p.location.contains("bytes-")).take(5) {
+                eprintln!("HARNESS-PANIC {} at {}", p.message, p.location);
+            }
         }
     }
     report.finish(total / 2, total / 4)
